@@ -45,3 +45,10 @@ Theorem C20_sccs_correct_le3 : forall n g, n <= 3 -> In g (all_graphs n) ->
   forall trivial, exists comps, sccs g trivial = Ok comps /\ c20_ok g trivial comps = true.
 Proof. intros n g Hn Hg t. apply c20_holds_spec. exact (sccs_correct_le3 n g Hn Hg t). Qed.
 Print Assumptions C20_sccs_correct_le3.
+
+(* the check evaluates the statement with the reachability sets computed once per graph: the same boolean *)
+From ZT Require Import DigraphFast.
+Theorem C20_fast_statement_is_the_statement : forall g trivial comps,
+  c20_ok_fast g trivial comps = c20_ok g trivial comps.
+Proof. exact c20_ok_fast_eq. Qed.
+Print Assumptions C20_fast_statement_is_the_statement.
